@@ -356,6 +356,12 @@ func init() {
 		"math.Max": func(fr *frame, a []value) value { return math.Max(a[0].(float64), a[1].(float64)) },
 		"math.Min": func(fr *frame, a []value) value { return math.Min(a[0].(float64), a[1].(float64)) },
 
+		// ---- strconv: numeric value of a symbolic mantissa is cut to an opaque float
+		"strconv.atof64exact":   atofCut,
+		"strconv.atof32exact":   atofCut,
+		"strconv.eiselLemire64": atofCut,
+		"strconv.eiselLemire32": atofCut,
+
 		// ---- os: a few harmless ones
 		"os.Getpid":          func(fr *frame, a []value) value { return fr.in.int64v(4242) },
 		"os.runtime_args":    func(fr *frame, a []value) value { return []value{} },
@@ -500,8 +506,8 @@ func condWait(fr *frame, a []value) value {
 	if !ok || li.t == nil {
 		in.rtPanic("sync.Cond.Wait with nil Locker")
 	}
-	unlock := in.prog.ssa.LookupMethod(li.t, nil, "Unlock")
-	lock := in.prog.ssa.LookupMethod(li.t, nil, "Lock")
+	unlock := in.findMethod(li.t, "Unlock")
+	lock := in.findMethod(li.t, "Lock")
 	in.call(fr, token.NoPos, unlock, []value{li.v})
 	p := in.path
 	if p == nil || p.condWaitHook == nil {
@@ -549,4 +555,16 @@ func atomicCAS(fr *frame, a []value) value {
 		return in.tb.True
 	}
 	return in.tb.False
+}
+
+func atofCut(fr *frame, a []value) value {
+	m, ok := a[0].(T)
+	e, ok2 := a[1].(T)
+	if ok && ok2 && m.Op == term.Const && e.Op == term.Const {
+		return fallThrough{}
+	}
+	if fr.in.path != nil {
+		fr.in.path.cuts["strconv float conversion of a symbolic mantissa/exponent -> opaque finite value (range errors not modelled)"]++
+	}
+	return tuple{symFloat{}, fr.in.tb.True}
 }
